@@ -1,13 +1,14 @@
 import BycycleModel.ObjMachine
 import BycycleModel.GroupMachine
 import BycycleModel.Pipeline
+import BycycleModel.PipelineAmp
 /-!
 # The object machine instantiated with the modelled pipeline
 
 `ObjMachine.lean` is parametric in the functional API. Here `compute_features` is instantiated with `pipelineCycles` (the composition of
 the transcriptions of `find_extrema`, `find_zerox`, the shape and burst features and the threshold-and-run rule), so that statements about
 object HISTORIES and statements about the TABLE meet: whatever happened to the object before, the table a fit stores is the pipeline's
-output for the current settings, hence well formed (C01) - see `C14_fit_is_pipeline`.
+output for the current settings (`pipelineCycles` or, for the amplitude method, `pipelineAmp`), hence well formed (C01) - see `C14_fit_is_pipeline`.
 
 A recording comes with the kernels' answers for it (they are parameters everywhere in the model): for every `find_extrema_kwargs`
 identifier the padding, the sign pattern of the filtered padded signal for either centring (trough centring filters the negated signal)
@@ -21,6 +22,18 @@ structure Recording where
   b : Nat → Centre → List Bool
   bd : Nat → Int
   amp : List Rat
+  /-- the dual-threshold detector (amplitude method): its mask for the burst options it is run with and the (min_n_cycles, min_burst_duration) pair that reaches it. -/
+  detMask : KV → Option Rat × Option Rat → List Bool
+
+/-- a table of either burst method. -/
+inductive Table where
+  | cycles (o : PipeOut)
+  | amp (o : PipeOutAmp)
+  deriving DecidableEq
+
+def Table.samples : Table → List SampleRow
+  | .cycles o => o.samples
+  | .amp o => o.samples
 
 def lookupD (kv : KV) (k : String) (d : Rat) : Rat := (kv.lookup k).getD d
 
@@ -32,12 +45,16 @@ def cycThreshOf (kv : KV) : CycThresh :=
 
 def centreOf (st : Settings) : Centre := if st.peak then .peak else .trough
 
-/-- `compute_features` with `burst_method='cycles'` as the modelled pipeline (the amplitude method is outside `Pipeline.lean`). -/
-def pipelineCf (st : Settings) (r : Recording) : Except Err PipeOut :=
-  if st.cycles then pipelineCycles (centreOf st) r.x (r.pad st.fek) (r.b st.fek (centreOf st)) r.amp (r.bd st.fek) (cycThreshOf st.thresholds)
-  else .error .other
+/-- `compute_features` as the modelled pipeline of the object's burst method: `pipelineCycles` resp. `pipelineAmp` (the `min_n_cycles` of the burst options and of the
+thresholds, the minimum duration and the fraction threshold with its default are looked up in the stored dictionaries). -/
+def pipelineCf (st : Settings) (r : Recording) : Except Err Table :=
+  if st.cycles then
+    (pipelineCycles (centreOf st) r.x (r.pad st.fek) (r.b st.fek (centreOf st)) r.amp (r.bd st.fek) (cycThreshOf st.thresholds)).map .cycles
+  else
+    (pipelineAmp (centreOf st) r.x (r.pad st.fek) (r.b st.fek (centreOf st)) r.amp (r.bd st.fek) (st.burstKwargs.lookup "min_n_cycles") (st.thresholds.lookup "min_n_cycles")
+      (st.burstKwargs.lookup "min_burst_duration") (r.detMask st.burstKwargs) (lookupD st.thresholds "burst_fraction_threshold" Slots.ampDefaultThreshold)).map .amp
 
-def pipelineApi (rc : PipeOut → KV → Except Err PipeOut) : Api Recording PipeOut where
+def pipelineApi (rc : Table → KV → Except Err Table) : Api Recording Table where
   oneD _ := true
   cf := pipelineCf
   rc := rc
